@@ -1,6 +1,6 @@
 \* behaviours to be run on the real library: every history of <= 2 SetCell (2 sheets, 2x2 window,
 \* 8 value classes) and SetActive, followed by an export with each trim x wrap combination
-CONSTANTS NSheets = 2 MaxR = 2 MaxC = 2 MaxCells = 2 FreeLen = 0 Escape = FALSE Record = TRUE
+CONSTANTS NSheets = 2 MaxR = 2 MaxC = 2 MaxCells = 2 FreeLen = 0 Escape = FALSE Overwrite = TRUE Record = TRUE
 CONSTANTS Values <- ReplayValues FreeAlphabet <- NoFree
 SPECIFICATION Spec
 CONSTRAINT BuildOnly
